@@ -99,12 +99,15 @@ func registerChain(f *fw, n int, c c18Chain) {
 	}
 }
 
-func buildC18(n int, net uint32, hi bool, prelude int) (*world.World, interface{}) {
+// genesis epoch lengths (MaxBlockChangeView given to initConfig, which puts no bound on it)
+var c18GenesisBcv = []uint32{60000, 1<<32 - 1, 7, 1 << 31}
+
+func buildC18(n int, net uint32, hi bool, prelude int, bcv uint32) (*world.World, interface{}) {
 	start := uint32(1)
 	if hi {
 		start = highStartBlock
 	}
-	w := world.New(n, world.Opts{NetworkID: net, StartHeight: start})
+	w := world.New(n, world.Opts{NetworkID: net, StartHeight: start, MaxBlockChangeView: bcv})
 	f := &fw{World: w, nonce: 1 << 16}
 	info := &c18Info{N: n}
 	for _, r := range c18Routers() {
@@ -178,7 +181,7 @@ type c18Op struct {
 	Via  int    `json:"via,omitempty"`  // probe hops in front of the call
 	Pay  int    `json:"pay,omitempty"`  // payload variant (syncGenesisHeader)
 	Raw  ev.B   `json:"raw,omitempty"`  // payload bytes for variant "random"
-	Adv  int    `json:"adv,omitempty"`  // 1: next block first; 2: jump MaxBlockChangeView blocks ahead first
+	Adv  int    `json:"adv,omitempty"`  // before the call: 1 next block; 2 jump 70000 blocks; 3/4/5 jump to one block before / exactly / one block after the height at which the running epoch is due
 	Dcoy int    `json:"dcoy,omitempty"` // decoy operator variant
 }
 
@@ -188,13 +191,14 @@ type c18Case struct {
 	Net     uint32  `json:"net,omitempty"`
 	Hi      bool    `json:"hi,omitempty"`
 	Prelude int     `json:"prelude,omitempty"`
+	Bcv     int     `json:"bcv,omitempty"` // genesis MaxBlockChangeView: 0 60000, 1 2^32-1, 2 seven blocks, 3 2^31
 	Ops     []c18Op `json:"ops,omitempty"`
 	Tree    *pnode  `json:"tree,omitempty"`
 	Signers []int   `json:"signers,omitempty"` // ctx mode: pool indices of the signers
 }
 
 var (
-	c18OperatorMethods = []string{"syncGenesisHeader", "syncGenesisHeader", "syncGenesisHeader", "updateConfig", "BlackChain", "WhiteChain", "commitDpos", "initConfig"}
+	c18OperatorMethods = []string{"syncGenesisHeader", "syncGenesisHeader", "syncGenesisHeader", "updateConfig", "updateConfig", "BlackChain", "WhiteChain", "commitDpos", "commitDpos", "commitDpos", "initConfig"}
 	c18FreeOwner       = []string{"registerCandidate", "registerSideChain", "registerRelayer", "RemoveRelayer", "registerStateValidator",
 		"removeStateValidator", "approveCandidate", "blackNode", "whiteNode", "approveRegisterSideChain", "approveUpdateSideChain",
 		"approveQuitSideChain", "approveRegisterRelayer", "approveRemoveRelayer", "approveRegisterStateValidator",
@@ -224,6 +228,9 @@ func genC18Op(t *rapid.T) c18Op {
 	op.Via = rapid.SampledFrom([]int{0, 0, 0, 1, 2}).Draw(t, "via")
 	op.Dcoy = rapid.IntRange(0, 5).Draw(t, "dcoy")
 	op.Adv = rapid.SampledFrom([]int{0, 0, 0, 0, 1, 1, 2}).Draw(t, "adv")
+	if op.M == "commitDpos" {
+		op.Adv = rapid.SampledFrom([]int{0, 1, 1, 2, 3, 4, 5}).Draw(t, "adv")
+	}
 	if op.M == "syncGenesisHeader" {
 		op.Pay = rapid.SampledFrom([]int{5, 5, 5, 0, 1, 2, 3, 4, 6}).Draw(t, "pay")
 		if op.Pay == 1 {
@@ -260,6 +267,10 @@ func genC18(t *rapid.T) c18Case {
 	c.Net = rapid.SampledFrom([]uint32{2, 2, 1}).Draw(t, "net")
 	c.Hi = rapid.Bool().Draw(t, "hi")
 	c.Prelude = rapid.IntRange(0, 2).Draw(t, "prelude")
+	c.Bcv = rapid.SampledFrom([]int{0, 0, 0, 0, 0, 0, 1, 1, 2, 3}).Draw(t, "bcv")
+	if c.Bcv != 0 { // the genesis-length variants exist for one world shape only (each base world costs a build)
+		c.N, c.Net, c.Hi = 4, 2, false
+	}
 	nops := rapid.SampledFrom([]int{1, 3, 8, 15, 25, 40}).Draw(t, "nops")
 	c.Ops = rapid.SliceOfN(rapid.Custom(genC18Op), nops, nops).Draw(t, "ops")
 	return c
@@ -387,7 +398,9 @@ func (r *c18Run) build(op c18Op) c18Call {
 		c = c18Call{contract: hsAddr, method: "syncGenesisHeader", args: encSyncGenesis(ch.ID, pay), validPay: valid}
 		c.opOnly = true
 	case "updateConfig":
-		c = c18Call{contract: nmAddr, method: "updateConfig", args: encConfiguration(5000+uint32(op.Sub), 6000, 10+uint32(op.Sub%3), 10000+uint32(op.Sub)*7), validPay: true}
+		// epoch lengths: ordinary ones, the minimum, and huge ones ("rotation switched off"): updateConfig has no upper bound
+		bcv := []uint32{10000 + uint32(op.Sub)*7, 10000 + uint32(op.Sub)*7, 10000, 1 << 31, 1<<32 - 1, 1<<32 - 2, 1<<32 - 4, 1<<32 - 1001}[op.Sub%8]
+		c = c18Call{contract: nmAddr, method: "updateConfig", args: encConfiguration(5000+uint32(op.Sub), 6000, 10+uint32(op.Sub%3), bcv), validPay: true}
 		c.opOnly = true
 	case "BlackChain", "WhiteChain":
 		c = c18Call{contract: ccmAddr, method: op.M, args: encVarUint(ch.ID), validPay: true, opOnly: true}
@@ -399,8 +412,14 @@ func (r *c18Run) build(op c18Op) c18Call {
 		if err1 != nil || err2 != nil {
 			panic(fmt.Sprintf("harness: cannot read governance view/config: %v %v", err1, err2))
 		}
-		if r.f.Height-gv.Height >= cfg.MaxBlockChangeView {
+		// the epoch is due at start + length, computed without wrap-around
+		if uint64(r.f.Height) >= uint64(gv.Height)+uint64(cfg.MaxBlockChangeView) {
 			c.exempt = "commitDpos-after-cycle"
+		} else if uint64(gv.Height)+uint64(cfg.MaxBlockChangeView) > 1<<32-1 {
+			r.ctx.Label("commitDpos:due-height-beyond-uint32")
+		}
+		if gv.Height > 0 {
+			r.ctx.Label("commitDpos:epoch-started-above-0")
 		}
 	case "initConfig":
 		var peers []int
@@ -587,7 +606,22 @@ func (r *c18Run) step(op c18Op) {
 		r.f.NextBlock()
 	case 2:
 		r.f.NextBlock()
-		r.f.Height += 70000
+		if r.f.Height < 1<<32-1<<21 {
+			r.f.Height += 70000
+		}
+	case 3, 4, 5:
+		r.f.NextBlock()
+		svc := r.f.Service()
+		gv, err1 := node_manager.GetGovernanceView(svc)
+		cfg, err2 := node_manager.GetConfig(svc)
+		if err1 == nil && err2 == nil {
+			target := uint64(gv.Height) + uint64(cfg.MaxBlockChangeView) + uint64(op.Adv) - 4
+			// block heights only grow and stay clear of 2^32 (room for the rest of the case)
+			if target > uint64(r.f.Height) && target < 1<<32-1<<20 {
+				r.f.Height = uint32(target)
+				ctx.Label(fmt.Sprintf("height:due%+d", op.Adv-4))
+			}
+		}
 	}
 	c := r.build(op)
 	signers := r.signersFor(op, c)
@@ -710,8 +744,9 @@ func runC18(ctx *ev.Ctx, c c18Case) {
 		net = 2
 	}
 	hi := c.Hi && net == 1 // the router start block only exists on the main net
-	key := fmt.Sprintf("c18/%d/%d/%v/%d", c.N, net, hi, c.Prelude%3)
-	f, info := getBase(key, net, func() (*world.World, interface{}) { return buildC18(c.N, net, hi, c.Prelude%3) })
+	bcv := c18GenesisBcv[((c.Bcv%len(c18GenesisBcv))+len(c18GenesisBcv))%len(c18GenesisBcv)]
+	key := fmt.Sprintf("c18/%d/%d/%v/%d/%d", c.N, net, hi, c.Prelude%3, bcv)
+	f, info := getBase(key, net, func() (*world.World, interface{}) { return buildC18(c.N, net, hi, c.Prelude%3, bcv) })
 	r := &c18Run{ctx: ctx, f: f, info: info.(*c18Info)}
 	r.op = operatorOf(f.World)
 	ctx.Label(fmt.Sprintf("prelude:%d", c.Prelude%3))
@@ -832,7 +867,8 @@ func TestC18(t *testing.T) {
 		"cases: (priv) forked L1 world (N=4..9 validators, main/test net, low/high start block, prelude: genesis | approved candidate | "+
 			"epoch change with one validator replaced) with 26 side chains (every router id 0..23 and two unknown ids) registered and approved through "+
 			"side_chain_manager, then 1..40 privileged calls (operator-only: syncGenesisHeader per router, updateConfig, BlackChain, WhiteChain, "+
-			"commitDpos, initConfig; owner-only: 25 methods of node/side-chain/relayer/state-validator/signature managers and vote/ripple imports), "+
+			"commitDpos, initConfig; epoch lengths 7 / 10000.. / 60000 / 2^31 / 2^32-1-k set at genesis or by operator-signed updateConfig, epochs starting at "+
+			"height 0 or later, commitDpos tried one block before / at / after the due height computed in 64 bits; owner-only: 25 methods of node/side-chain/relayer/state-validator/signature managers and vote/ripple imports), "+
 			"each signed by a generated subset of {required witness, validator, all validators, outsider, decoy operator multisig, other owners, "+
 			"impostor named in the parameter}, direct or through 1-2 probe-contract hops; (ctx) call trees over four probe contracts evaluating "+
 			"CheckWitness at every step. non-trivial: a call lacking the required witness but carrying another signer or caller context was "+
